@@ -282,6 +282,100 @@ func publishProg() []string {
 	}, skipRules...))
 }
 
+// rearmProg (round 8c): the body of the `for` loop of `Cluster.pushInformerMetrics` (cluster.go) - what is sent,
+// which condition takes the "retry sooner" branch and the two divisors of `metric.GetTTL()`.
+func rearmProg() []string {
+	fset := token.NewFileSet()
+	f, err := parser.ParseFile(fset, filepath.Join(repo(), "cluster.go"), nil, 0)
+	if err != nil {
+		return []string{"?"}
+	}
+	reset := regexp.MustCompile(`^timer\.Reset\(metric\.GetTTL\(\)/(\d+)\)$`)
+	for _, d := range f.Decls {
+		fd, ok := d.(*ast.FuncDecl)
+		if !ok || fd.Name.Name != "pushInformerMetrics" || fd.Recv == nil || fd.Body == nil {
+			continue
+		}
+		var loop *ast.ForStmt
+		for _, st := range fd.Body.List {
+			if l, ok := st.(*ast.ForStmt); ok {
+				if loop != nil {
+					return []string{"?"}
+				}
+				loop = l
+			}
+		}
+		if loop == nil || loop.Cond != nil || loop.Init != nil || loop.Post != nil {
+			return []string{"?"}
+		}
+		var out []string
+		for _, st := range loop.Body.List {
+			t := stmtText(fset, st)
+			switch s := st.(type) {
+			case *ast.SelectStmt:
+				if t == "select{case<-ctx.Done():returncase<-timer.C:}" {
+					continue
+				}
+				out = append(out, "?")
+			case *ast.IfStmt:
+				if s.Init != nil || s.Else != nil {
+					out = append(out, "?")
+					continue
+				}
+				cond := stmtText(fset, &ast.ExprStmt{X: s.Cond})
+				body := s.Body.List
+				// `if err == nil && metric.Discard() { err = <anything> }`: an invalid metric counts as an error
+				if (cond == "err==nil&&metric.Discard()" || cond == "err==nil&&!metric.Valid") && len(body) == 1 {
+					if as, ok := body[0].(*ast.AssignStmt); ok && as.Tok == token.ASSIGN && len(as.Lhs) == 1 && stmtText(fset, &ast.ExprStmt{X: as.Lhs[0]}) == "err" {
+						out = append(out, "discard=err")
+						continue
+					}
+				}
+				var kind string
+				switch cond {
+				case "err!=nil":
+					kind = "err?retry/"
+				case "err!=nil||metric.Discard()", "err!=nil||!metric.Valid":
+					kind = "bad?retry/"
+				}
+				// the branch: logging, exactly one timer.Reset(metric.GetTTL()/N), `continue` last
+				div, resets, okShape := "", 0, kind != "" && len(body) >= 2
+				if okShape {
+					if b, isB := body[len(body)-1].(*ast.BranchStmt); !isB || b.Tok != token.CONTINUE {
+						okShape = false
+					}
+					for _, bs := range body[:len(body)-1] {
+						bt := stmtText(fset, bs)
+						if m := reset.FindStringSubmatch(bt); m != nil {
+							div = m[1]
+							resets++
+						} else if strings.Contains(bt, "timer") || strings.Contains(bt, "return") || strings.Contains(bt, "break") || strings.Contains(bt, "continue") {
+							okShape = false
+						}
+					}
+				}
+				if okShape && resets == 1 {
+					out = append(out, kind+div)
+				} else {
+					out = append(out, "?")
+				}
+			default:
+				switch {
+				case t == "metric,err:=c.sendInformerMetric(ctx,informer)":
+					out = append(out, "send")
+				case t == "retries=0":
+				case reset.MatchString(t):
+					out = append(out, "rearm/"+reset.FindStringSubmatch(t)[1])
+				default:
+					out = append(out, "?")
+				}
+			}
+		}
+		return out
+	}
+	return []string{"?"}
+}
+
 func leanStrs(name, doc string, l []string) string {
 	q := make([]string, len(l))
 	for i, s := range l {
@@ -324,6 +418,7 @@ func main() {
 	fmt.Printf("/-- `Window.All`: how a value met by the forward walk `Do` is added to the result -/\ndef windowAllOrder : String := %q\n", windowAllOrder())
 	fmt.Print(leanStrs("latestMetricsProg", "`Monitor.LatestMetrics` (monitor/pubsubmon/pubsubmon.go): where the peerset comes from and what is returned", latestMetricsProg()))
 	fmt.Print(leanStrs("publishProg", "`Monitor.PublishMetric`: guard, encode, publish", publishProg()))
+	fmt.Print(leanStrs("rearmProg", "`Cluster.pushInformerMetrics` (cluster.go), body of the loop: send, the retry-sooner branch, the regular re-arm", rearmProg()))
 	fmt.Println()
 	// Source text of three small functions whose exact shape no timed run can observe (the
 	// strictness of the expiry comparison) or that the model transcribes line by line
